@@ -1,5 +1,129 @@
-(* placeholder while the proofs are being written *)
-From Verif Require Import Transpile.
-Theorem C02_placeholder : True.
-Proof. exact I. Qed.
-Print Assumptions C02_placeholder.
+(* C02 -- MathML -> SymPy transpilation preserves meaning for every supported operator.
+   Statements only; proofs are in Proofs/C02P.v.
+     tr         Model/Transpile.v   what parser.Transpiler does with one element (faithful, including F13)
+     msem       Sem/MathML.v        the value MathML 2 assigns to a content tree
+     eval       Sem/Eval.v          the value of a SymPy-shaped expression; psem := pow_sem, the function symbols
+                                    fsem, the constants csem, the identifiers vsem and the derivative atoms dsem are
+                                    universally quantified and THE SAME on both sides
+   Quantified over ALL element trees (unbounded depth and arity), all environments.
+   Covered by C02_transpile_sound: ci, cn (plain and e-notation), pi/exponentiale/infinity/notanumber/true/false,
+   plus, times, max, min, minus (both arities), divide, power, rem, root/degree, log/logbase, ln, exp, abs, floor,
+   ceiling, the 24 trigonometric / hyperbolic functions and inverses (generically, through the generated table),
+   eq/lt/leq/gt/geq n-ary and chained, neq, and/or/xor/not, piecewise/piece/otherwise, diff with bvar (first order).
+   Excluded (the specification gives no value, so the theorem says nothing): derivatives of order > 1 or of a compound
+   expression, n-ary operators without operands, numbers outside [sign] digits [. digits] (exponent spellings),
+   the rounding of a decimal to the nearest double (the model keeps the exact decimal). *)
+From Coq Require Import List ZArith QArith Reals Qreals String.
+From Verif Require Import Sexp UnitAlg UStore Expr Eval TranspileTables_gen Transpile MathML C02P.
+Import ListNotations.
+
+(* the generated tables (simple table, n-ary relations, handler keys -> methods) give every tag exactly the
+   operator the specification has for it; a tag has a handler iff the specification knows it *)
+Theorem C02_table_matches_spec : forall tag,
+  tag_kind tag = match role tag with Some r => expected r | None => None end.
+Proof. exact table_matches_spec. Qed.
+Print Assumptions C02_table_matches_spec.
+
+Theorem C02_transpile_sound : forall fsem csem qsem vsem dsem t e,
+  tr t = TOk (TE e) ->
+  forall v, msem fsem csem vsem dsem t = Some v -> eval fsem pow_sem csem qsem vsem dsem e = Some v.
+Proof. exact transpile_sound. Qed.
+Print Assumptions C02_transpile_sound.
+
+(* an n-ary eq / lt / leq / gt / geq is the conjunction of the n-1 relations between adjacent operands
+   (pairwise r a [b; c; ...] = rel a b && rel b c && ...) *)
+Theorem C02_relation_chain : forall fsem csem qsem vsem dsem tag ty text tail otag oty otext otail och args r a rest e b,
+  role tag = Some RApply -> role otag = Some (ROp (SRelN r)) ->
+  msems fsem csem vsem dsem args = Some (map VR (a :: rest)) -> rest <> [] ->
+  tr (MElem tag ty text tail (MElem otag oty otext otail och :: args)) = TOk (TE e) ->
+  pairwise r a rest = Some b ->
+  eval fsem pow_sem csem qsem vsem dsem e = Some (VB b).
+Proof. exact relation_chain. Qed.
+Print Assumptions C02_relation_chain.
+
+(* Error clause.  Full statement: every tree to which MathML assigns no meaning (unsupported element, wrong number
+   of operands or children, misplaced qualifier, malformed number) is refused.  It is FALSE of the faithful model and
+   of the code (DESIGN section 6, F13; KNOWN_FINDINGS.txt).  Proved: the parts below; refuted: the witnesses. *)
+Theorem C02_rejects_partial_unknown_element : forall tag ty text tail ch,
+  role tag = None -> tr (MElem tag ty text tail ch) = TErr EValue.
+Proof. exact rejects_unknown. Qed.
+Print Assumptions C02_rejects_partial_unknown_element.
+
+Theorem C02_rejects_partial_unknown_child : forall tag ty text tail ch r c,
+  role tag = Some r -> is_container r = true -> In c ch -> role (mtag c) = None ->
+  exists e, tr (MElem tag ty text tail ch) = TErr e.
+Proof. exact rejects_unknown_child. Qed.
+Print Assumptions C02_rejects_partial_unknown_child.
+
+(* piece: exactly 2 children; otherwise, degree: exactly 1; bvar: 1 or 2; logbase, apply, piecewise: at least 1
+   (guard: <logbase> with more than one child is accepted) *)
+Theorem C02_rejects_partial_child_count : forall tag ty text tail ch r,
+  role tag = Some r -> count_ok r (length ch) = false -> exists e, tr (MElem tag ty text tail ch) = TErr e.
+Proof. exact rejects_count. Qed.
+Print Assumptions C02_rejects_partial_child_count.
+
+Theorem C02_rejects_partial_cn_type : forall tag text tail ch ty,
+  role tag = Some RCn -> ty <> 0%Z -> ty <> 1%Z -> tr (MElem tag ty text tail ch) = TErr EValue.
+Proof. exact rejects_cn_type. Qed.
+Print Assumptions C02_rejects_partial_cn_type.
+
+(* a wrong number of operands is refused -- guards: there is at least one operand (an operator-only apply returns
+   the operator), and the count is not one of the two holes arity_hole (ln with 2, diff with 3 operands) *)
+Theorem C02_rejects_partial_arity : forall tag ty text tail otag oty otext otail och args k,
+  role tag = Some RApply -> role otag = Some (ROp k) ->
+  args <> [] -> arity_ok k (length args) = false -> arity_hole k (length args) = false ->
+  exists e, tr (MElem tag ty text tail (MElem otag oty otext otail och :: args)) = TErr e.
+Proof. exact rejects_arity. Qed.
+Print Assumptions C02_rejects_partial_arity.
+
+Open Scope string_scope.
+
+Theorem C02_rejects_refuted_operator_only :
+  exists t, t = el "apply" [el "plus" []] /\ tr t = TOk (TOp KAdd) /\ no_value t.
+Proof. exact refuted_operator_only. Qed.
+Print Assumptions C02_rejects_refuted_operator_only.
+
+Theorem C02_rejects_refuted_ln_two_operands :
+  exists t, t = el "apply" [el "ln" []; ci_ "x"; ci_ "y"] /\
+            tr t = TOk (TE (b_log (EVar (encode (N "x"))) (EVar (encode (N "y"))))) /\ no_value t.
+Proof. exact refuted_ln_two_operands. Qed.
+Print Assumptions C02_rejects_refuted_ln_two_operands.
+
+Theorem C02_rejects_refuted_misplaced_degree :
+  exists t, t = el "apply" [el "root" []; ci_ "x"; el "degree" [cn_ "3"]] /\
+            tr t = TOk (TE (b_root (ENum 2 (inject_Z 3)) (EVar (encode (N "x"))))) /\ no_value t.
+Proof. exact refuted_misplaced_degree. Qed.
+Print Assumptions C02_rejects_refuted_misplaced_degree.
+
+Theorem C02_rejects_refuted_foreign_qualifier :
+  exists t, t = el "apply" [el "plus" []; el "degree" [cn_ "3"]; ci_ "x"] /\
+            tr t = TOk (TE (EAdd [ENum 2 (inject_Z 3); EVar (encode (N "x"))])) /\ no_value t.
+Proof. exact refuted_foreign_qualifier. Qed.
+Print Assumptions C02_rejects_refuted_foreign_qualifier.
+
+Theorem C02_rejects_refuted_cn_underscore :
+  exists t, t = cn_ "1_0" /\ tr t = TOk (TE (ENum 2 (inject_Z 10))) /\ no_value t.
+Proof. exact refuted_cn_underscore. Qed.
+Print Assumptions C02_rejects_refuted_cn_underscore.
+
+Theorem C02_rejects_refuted_cn_nan : exists t, t = cn_ "nan" /\ tr t = TOk (TE (EConst 4)) /\ no_value t.
+Proof. exact refuted_cn_nan. Qed.
+Print Assumptions C02_rejects_refuted_cn_nan.
+
+Theorem C02_rejects_refuted_diff_degree_truncated :
+  exists t, t = el "apply" [el "diff" []; el "bvar" [ci_ "t"; el "degree" [cn_ "2.7"]]; ci_ "y"] /\
+            tr t = TOk (TE (EDeriv (EVar (encode (N "y"))) (EVar (encode (N "t"))) 2)) /\ no_value t.
+Proof. exact refuted_diff_degree_truncated. Qed.
+Print Assumptions C02_rejects_refuted_diff_degree_truncated.
+
+Theorem C02_rejects_refuted_diff_without_bvar :
+  exists t, t = el "apply" [el "diff" []; ci_ "t"; ci_ "y"] /\
+            tr t = TOk (TE (EDeriv (EVar (encode (N "y"))) (EVar (encode (N "t"))) 1)) /\ no_value t.
+Proof. exact refuted_diff_without_bvar. Qed.
+Print Assumptions C02_rejects_refuted_diff_without_bvar.
+
+Theorem C02_rejects_refuted_logbase_two_children :
+  exists t, t = el "apply" [el "log" []; el "logbase" [ci_ "b"; ci_ "c"]; ci_ "x"] /\
+            tr t = TOk (TE (b_log (EVar (encode (N "x"))) (EVar (encode (N "b"))))) /\ no_value t.
+Proof. exact refuted_logbase_two_children. Qed.
+Print Assumptions C02_rejects_refuted_logbase_two_children.
